@@ -23,9 +23,9 @@
 (*                                                                         *)
 (* Two clocks: `now` in units of one presentation validity period          *)
 (* (s2sMaxPresentationValidity = s2sMaxClockSkew = 5 s, nonce retention    *)
-(* 10 s; the harness uses a unit of 6 s and sends at 2.5 s into the unit,  *)
+(* 15 s; the harness uses a unit of 6 s and sends at 2.5 s into the unit,  *)
 (* which makes every comparison of the node fall >= 1.5 s off a boundary   *)
-(* and VPWindow = Skew = 1, NonceTTL = 2 the exact abstraction) and `age`  *)
+(* and VPWindow = Skew = 1, NonceTTL = 3 the exact abstraction) and `age`  *)
 (* in units of accessTokenValidity / TokenTTL.  The time scales are three  *)
 (* orders of magnitude apart; the harness realises Tick by waiting and Age *)
 (* by moving the stored token's timestamps.                                *)
@@ -33,14 +33,16 @@
 (* Deviations of the code from the property are named constants:           *)
 (*   Guarded      claim names refused when a token is introspected (code:  *)
 (*                seven names; prescriptive: every response member)        *)
-(*   NonceTTL     retention of a used s2s nonce (code: validity + 1 skew;  *)
-(*                prescriptive: validity + 2 skews, the acceptance span of *)
-(*                a JSON-LD presentation)                                  *)
+(*   NonceTTL     retention of a used s2s nonce (prescriptive: validity +  *)
+(*                2 skews, the acceptance span of a JSON-LD presentation;  *)
+(*                the code kept it for validity + 1 skew until the repair  *)
+(*                of C02-replaywindow, now 3 as well)                      *)
 (*   S2SAllDefs   vp_token-bearer requires every definition the scope maps *)
 (*                to (code: FALSE, one submission is enough)               *)
 (*   ExtClaims    introspect_extended answers with the claims established  *)
-(*                at issuance (code: FALSE, the generated response type    *)
-(*                has no MarshalJSON, AdditionalProperties are dropped)    *)
+(*                at issuance (code: TRUE since the repair of              *)
+(*                C02-extclaims; before, the generated response type had   *)
+(*                no MarshalJSON and AdditionalProperties were dropped)    *)
 (***************************************************************************)
 EXTENDS Naturals, FiniteSets, Sequences, TLC
 
@@ -67,7 +69,7 @@ CONSTANTS
     MaxSess,      \* bound on authorization-code sessions
     MaxNow, MaxAge, TokenTTL, NonceTTL, VPWindow, Skew,
     Guarded, Members, S2SAllDefs,
-    ExtClaims,    \* TRUE: introspect_extended carries the credential-derived claims like introspect does (code: FALSE)
+    ExtClaims,    \* TRUE: introspect_extended carries the credential-derived claims like introspect does (code: TRUE since the repair of C02-extclaims)
     Exts,         \* which endpoint variants are used: subset of BOOLEAN (TRUE = introspect_extended)
     Hist
 
@@ -212,8 +214,11 @@ S2SReplayDo(stage) ==
     /\ LET p == lastp
        IN /\ S2SEffect(p, stage, p.cls = "ok" /\ ~p.acc /\ S2SStage(p.cls, p.n, p.c, p.fmt, p.early) = "issue")
           /\ lastp' = [p EXCEPT !.acc = @ \/ stage = "issue"]
+          \* edge: only the remembered nonce stands between this replay and a token (the presentation is still accepted by
+          \* VerifyVP) and the nonce is in the last tick of its retention - the behaviours on which a shorter retention shows
           /\ Log([a |-> "S2SReplay", p |-> PresId(npres), n |-> p.n, res |-> ErrCode(stage), stage |-> stage,
-                  tok |-> IF stage = "issue" THEN TokId(Len(tokens) + 1) ELSE None])
+                  tok |-> IF stage = "issue" THEN TokId(Len(tokens) + 1) ELSE None,
+                  edge |-> (stage = "replay" /\ p.cls = "ok" /\ TimeValid(p.c, p.fmt) /\ now + 1 = burnt[p.n] + NonceTTL)])
     /\ UNCHANGED <<now, age, npres, sess, intro>>
 S2SReplay == lastp.cls # None /\ S2SReplayDo(S2SStage(lastp.cls, lastp.n, lastp.c, lastp.fmt, lastp.early))
 
